@@ -13,6 +13,7 @@ var machines = []uint16{0x8664, 0xaa64, 0x1c4, 0x14c, 0x5032, 0x5064, 0x5128, 0x
 type PEOpts struct {
 	MaxSections    int
 	Many           bool // one image in sixteen has 13..48 (small) sections
+	OddTable       bool // an existing certificate table may have any length and start unaligned (inputs of hashing only)
 	MaxSectionSize int
 	MaxTrailing    int
 	Table          bool // allow an existing certificate table
@@ -45,6 +46,10 @@ func PEImage(o PEOpts) *rapid.Generator[[]byte] {
 			lfanew &^= 7
 		case 1:
 			lfanew = 64
+		}
+		if o.Many && Chance(t, "hugelfanew", 1, 40) {
+			// a DOS stub of 64 KiB and more: e_lfanew does not fit 16 bits
+			lfanew = rapid.SampledFrom([]int{0xffc0, 0xfff8, 0x10000, 0x10040, 0x20080}).Draw(t, "lfanew_big")
 		}
 		optFixed := 112
 		if pe32 {
@@ -133,6 +138,14 @@ func PEImage(o PEOpts) *rapid.Generator[[]byte] {
 			zeroPad = (8 - content%8) % 8
 			tableVA = content + zeroPad
 			tableSize = 8 * rapid.IntRange(1, 40).Draw(t, "tablesize")
+			if o.OddTable && rapid.IntRange(0, 5).Draw(t, "oddtable") == 0 {
+				// a table as a careless tool leaves it: any length, possibly without the alignment padding in front
+				tableSize = rapid.IntRange(1, 320).Draw(t, "tablesize_any")
+				if rapid.Bool().Draw(t, "unpadded") {
+					zeroPad = rapid.IntRange(0, zeroPad).Draw(t, "pad_any")
+					tableVA = content + zeroPad
+				}
+			}
 		}
 		total := content + zeroPad + tableSize
 		img := FillBytes(t, total)
